@@ -176,15 +176,59 @@ fn strategy(tier: Tier) -> BoxedStrategy<Case> {
         .boxed()
 }
 
+/// Every stream over a tiny alphabet up to a length bound for small k and three sketch shapes.
+fn exhaustive(ctx: &Ctx, alphabet: u16, max_len: usize) {
+    let a = alphabet as usize;
+    let n_streams: usize = (0..=max_len).map(|l| a.pow(l as u32)).sum();
+    let cfgs: Vec<(usize, usize, usize)> = vec![(1, 1, 1), (2, 1, 1), (1, 2, 1), (2, 2, 1), (3, 3, 2), (1, 4096, 4), (2, 4096, 4), (3, 4096, 4)];
+    ctx.run_indexed("exhaustive_small_streams", n_streams * cfgs.len(), |i, acc| {
+        let (k, w, d) = cfgs[i % cfgs.len()];
+        let mut code = i / cfgs.len();
+        let mut len = 0usize;
+        loop {
+            let cnt = a.pow(len as u32);
+            if code < cnt {
+                break;
+            }
+            code -= cnt;
+            len += 1;
+        }
+        let mut items = Vec::with_capacity(len);
+        for _ in 0..len {
+            items.push((code % a) as u16);
+            code /= a;
+        }
+        let case = Case { k, w, d, stream: Stream::Explicit(items) };
+        match guarded_eval(&C10, &case) {
+            Verdict::Fail { sig, msg } => Some((serde_json::to_value(&case).unwrap(), sig, msg)),
+            Verdict::Pass(info) => {
+                acc.pass_enum(info.nontrivial, || serde_json::to_value(&case).unwrap());
+                None
+            }
+        }
+    });
+    ctx.mark_exhaustive(
+        "exhaustive_small_streams",
+        format!("every stream over an alphabet of {} elements up to length {} for (k, w, d) in {:?}, every prefix", alphabet, max_len, cfgs),
+    );
+}
+
 pub fn checks() -> Vec<Box<dyn DynCheck>> {
     vec![Box::new(C10)]
 }
 
 pub fn run(ctx: &Ctx) {
-    ctx.set_rule("generated: k in 1..=8 (32 thorough), sketch (w, d) from 1x1 (everything collides) to collision-free 4096x4, alphabets 1..200 with ties, streams (explicit shrinkable lists, uniform, zipf, rotating, newcomers after the heap is full, sorted blocks), checked at every prefix up to 400 and every 7th beyond. Oracle: exact counts + a shadow CountMinSketch with identical parameters fed the same stream (E = its largest overestimate): iter() yields exactly min(k, distinct) distinct seen elements; a missing x has >= k other elements with true count >= true(x) - E; is_empty; add never panics (harness built with debug assertions on). Non-trivial: distinct seen > k and a displacement observed (an element left the result). Distinct = (k, w, d, stream).");
+    ctx.set_rule("exhaustive: every stream over a 4-element alphabet up to length 8 (thorough: 10, and 5 elements up to length 8) for k in 1..=3 and sketches 1x1, 2x1, 3x2, 4096x4, every prefix. generated: k in 1..=8 (32 thorough), sketch (w, d) from 1x1 (everything collides) to collision-free 4096x4, alphabets 1..200 with ties, streams (explicit shrinkable lists, uniform, zipf, rotating, newcomers after the heap is full, sorted blocks), checked at every prefix up to 400 and every 7th beyond. Oracle: exact counts + a shadow CountMinSketch with identical parameters fed the same stream (E = its largest overestimate): iter() yields exactly min(k, distinct) distinct seen elements; a missing x has >= k other elements with true count >= true(x) - E; is_empty; add never panics (harness built with debug assertions on). Non-trivial: distinct seen > k and a displacement observed (an element left the result). Distinct = (k, w, d, stream).");
     ctx.assume("CMSHeap::new takes a CountMinSketch with the default hasher, so the shadow sketch with equal (w, d) is identical to the internal one");
     ctx.run_regressions(&[&C10]);
     let t = ctx.tier;
+    match t {
+        Tier::Quick => exhaustive(ctx, 4, 8),
+        Tier::Thorough => {
+            exhaustive(ctx, 4, 10);
+            exhaustive(ctx, 5, 8);
+        }
+    }
     ctx.run_random(&C10, t.pick(500_000, 3_000_000), move || strategy(t));
     ctx.require_class("prefixes", "displacement", 0.2);
     ctx.require_class("prefixes", "sketch_collisions", 0.2);
